@@ -232,6 +232,8 @@ def insert_point(doc: Node, pos: int, node_type: NodeType) -> int | None:
         return pos
     if pos_.parent_offset == 0:
         for d in range(pos_.depth - 1, -1, -1):
+            if pos_.node(d + 1).type.spec.get("isolating"):
+                break  # never look for a place outside an isolating node
             index = pos_.index(d)
             if pos_.node(d).can_replace_with(index, index, node_type):
                 return pos_.before(d + 1)
@@ -239,6 +241,8 @@ def insert_point(doc: Node, pos: int, node_type: NodeType) -> int | None:
                 return None
     if pos_.parent_offset == pos_.parent.content.size:
         for d in range(pos_.depth - 1, -1, -1):
+            if pos_.node(d + 1).type.spec.get("isolating"):
+                break
             index = pos_.index_after(d)
             if pos_.node(d).can_replace_with(index, index, node_type):
                 return pos_.after(d + 1)
